@@ -24,7 +24,10 @@ RULE = (
     "another actor has acted.  The SCHEDULE is a generated list of actor "
     "indices.  Configurations: crops of 1-3 batches, small and > 8 KiB "
     "results, one grower per batch plus optionally a second grower of one "
-    "batch, a reap(wait=True) actor and optionally a progress poller.  For "
+    "batch, a reap(wait=True) actor (in a third of the multi-batch cases one "
+    "batch is grown beforehand and the reaper is also given "
+    "allow_incomplete=True: it must still wait for everything) and "
+    "optionally a progress poller.  For "
     "the smallest configurations (1 grower + reaper with small and > 8 KiB "
     "results; 2 growers of the same batch + reaper; 2 growers of the same "
     "batch + poller; 2 batches, 2 growers + reaper) ALL interleavings "
@@ -215,9 +218,20 @@ def one_run(x, root, case, expected, direct, schedule, default="rr"):
         else:
             sched.add(f"grow{gi}",
                       lambda c=c, b=b: x.grow(b + 1, crop=c, verbosity=0))
+    if case.get("pre_grown") is not None:
+        # one batch is finished before anybody starts (so that a waiting
+        # reap may also be told to tolerate missing results)
+        with core.quiet():
+            x.Crop(name="c11", parent_dir=root).grow(
+                case["pre_grown"] % B + 1)
     if case.get("reaper", True):
         cr = x.Crop(name="c11", parent_dir=root)
-        sched.add("reap", lambda: cr.reap(wait=True, clean_up=False))
+        ropts = {"allow_incomplete": True} \
+            if case.get("pre_grown") is not None else {}
+        # (waiting comes first: with wait=True every result is waited for,
+        # whatever else is allowed)
+        sched.add("reap", lambda: cr.reap(wait=True, clean_up=False,
+                                          **ropts))
     reported = []
     if case.get("poller"):
         cp = x.Crop(name="c11", parent_dir=root)
@@ -394,6 +408,8 @@ def strategy(draw):
             "reaper": True,
             "poller": draw(st.sampled_from([0, 0, 1, 2])),
             "schedule": draw(st.lists(st.integers(0, 5), max_size=70))}
+    if B >= 2 and draw(st.sampled_from([False, False, True])):
+        case["pre_grown"] = draw(st.integers(0, B - 1))
     return case
 
 
